@@ -77,6 +77,11 @@ def prod(
     assert out is None
     if isinstance(axis, numpy.integer):
         axis = int(axis)
+    # multiply in the requested type, or else the one numpy.prod accumulates in
+    if dtype is None:
+        dtype = numpy.prod(numpy.empty(0, dtype=a.dtype)).dtype
+    if a.dtype != numpy.dtype(dtype):
+        a = a.astype(dtype)
     if keepdims:
         if axis is None:
             out = _prod(numpoly.reshape(a, -1), axis=0)
